@@ -61,8 +61,9 @@ Wire(m) == IF layer = "raw" THEN (IF m.len = 0 /\ HasOob(m) THEN 1 ELSE m.len)
 SendOK(m, out) ==
   IF m.nfds > MaxFds THEN out = "rej"
   ELSE IF layer = "raw" THEN out = "ok"
-  ELSE /\ (m.val > Cap => out = "rej")                        \* cannot fit
-       /\ (m.val + DescA + DescB <= Cap => out = "ok")        \* fits whatever must be described
+  ELSE /\ (m.val > Cap => out = "rej")        \* cannot fit
+       /\ (Wire(m) <= Cap => out = "ok")      \* fits together with every descriptor still owed to the decoder
+       \* in between (fits only without the descriptors of earlier refused messages): either
 \* implementation layer: size check on the encoded packet, then the kernel's check
 SendImpl(m) ==
   IF layer = "gob" /\ Wire(m) > Cap THEN "rej"
